@@ -128,14 +128,28 @@ class CompoundQuery(qcore.Query):
             else:
                 subqueries.append(s)
 
-        # If every subquery is Null, this query is Null
-        if all(q is qcore.NullQuery for q in subqueries):
+        # Absorbing everything into an unfielded Every, and dropping NullQuery
+        # clauses, is only valid for a union of the subqueries
+        union = not self.intersect_merge
+
+        # If every subquery is Null, this query is Null. An intersection with
+        # a Null subquery is Null.
+        if (all(q is qcore.NullQuery for q in subqueries)
+            or (not union and any(q is qcore.NullQuery for q in subqueries))):
             return qcore.NullQuery
 
-        # If there's an unfielded Every inside, then this query is Every
         if any((isinstance(q, Every) and q.fieldname is None)
                for q in subqueries):
-            return Every()
+            if union:
+                # If there's an unfielded Every inside a union, then this query
+                # is Every
+                return Every()
+            # An unfielded Every is the identity element of an intersection
+            subqueries = [q for q in subqueries
+                          if not (isinstance(q, Every)
+                                  and q.fieldname is None)]
+            if not subqueries:
+                return Every()
 
         # Merge ranges and Everys
         everyfields = set()
